@@ -20,7 +20,8 @@ Definition verdict_c04 (h : hierarchy) (c : icase) : nat :=
 Record c6case := C6Case {
   c6 : icase;
   c6decoded : ty;            (* type_from_json (type_to_json impl), by /repo *)
-  c6stub_counts : list nat   (* fields per generated stub class; base+NonTotal pairs summed *)
+  c6stub_counts : list nat;  (* keys of every TypedDict class the generated class stubs define (inherited keys included) *)
+  c6collision : bool         (* two generated classes share a name (C11's kf_hint_collision) *)
 }.
 
 Definition all_str_dicts (vs : list value) : bool :=
@@ -34,9 +35,30 @@ Definition verdict_c06 (c : c6case) : nat :=
   if negb (td_boundedb k impl) then 2
   else if Nat.eqb k 0 && has_td impl then 2
   else if negb (td_boundedb k (c6decoded c)) then 2
-  else if negb (forallb (fun n => Nat.leb 1 n && Nat.leb n k) (c6stub_counts c)) then 2
+  else if negb (forallb (fun n => Nat.leb 1 n && Nat.leb n k) (c6stub_counts c)) then (if c6collision c then 5 else 2)
   else if is_td impl && negb (all_str_dicts (ivs (c6 c))) then 2
   else match model_of (c6 c) with
        | Some t => if corrb t impl then 0 else 1
        | None => 1
+       end.
+
+(* ---- C04, order and multiplicity: the implementation's answers for a permutation of the values and for the values
+        with one of them repeated ---- *)
+From MT Require Import StubSet MergePermBase.
+Record pcase := PCase {
+  pk : nat; pvs : list value;
+  pimpl : ty;            (* shrink_types(get_type(v) for v in vs) *)
+  pimpl_perm : ty;       (* ... for a shuffled vs *)
+  pdup : value;          (* the value seen twice *)
+  pimpl_dup : ty         (* ... for vs + [pdup] *)
+}.
+(* 0 ok | 2 the merged type depends on the order, or on multiplicity outside the recorded class |
+   5 multiplicity dependence inside kf_td_under_union (the repeated value's type has a TypedDict below a union) *)
+Definition verdict_c04_order (c : pcase) : nat :=
+  if negb (forallb wf_valueb (pvs c)) then 3
+  else if negb (equivb (pimpl c) (pimpl_perm c)) then 2
+  else if equivb (pimpl c) (pimpl_dup c) then 0
+  else match get_type (pk c) (pdup c) with
+       | Some tx => if kf_td_under_union tx then 5 else 2
+       | None => 2
        end.
